@@ -38,7 +38,10 @@ func execBody(body func() (string, string)) (sig, detail string, steps int) {
 	return
 }
 
+var c10Resent int // retransmissions observed in the last run (outcome evidence)
+
 func c10Run(c c10Case) (string, string) {
+	c10Resent = 0
 	hb := 30
 	if strings.Contains(c.Pattern, "p") {
 		hb = 1 // periodic heartbeats enter the outbound history (virtual time passes)
@@ -78,6 +81,11 @@ func c10Run(c c10Case) (string, string) {
 		return "", ""
 	}
 	// logon, then the outbound history
+	if strings.HasPrefix(c.Pattern, "g") {
+		// the peer's Logon is ahead of the expected number: the session answers and then sends its own
+		// ResendRequest, which takes outbound number 2 and belongs to the sent history like any message
+		w.nextIn = 5
+	}
 	w.logonOK(hb)
 	for i, p := range c.Pattern {
 		switch p {
@@ -133,6 +141,7 @@ func c10Run(c c10Case) (string, string) {
 				return "resend:not-ascending", fmt.Sprintf("n=%d (b,e)=(%d,%d) %d after %d", n, b, e, q, last)
 			}
 			last = q
+			c10Resent++
 		}
 		if exact {
 			cnt := 0
@@ -187,8 +196,10 @@ func runC10(R *vlib.Out) {
 		R.Sample(5, c)
 		if sig != "" {
 			R.Violate(sig, fmt.Sprintf("%+v: %s", c, d), c)
+		} else if c.Gap != nil {
+			R.Outcome(fmt.Sprintf("gap stored=%d logon=%d ok", c.Gap[0], c.Gap[1]))
 		} else {
-			R.Outcome("ok")
+			R.Outcome(fmt.Sprintf("requests=%d retransmitted=%d", len(c.Reqs), c10Resent))
 		}
 		return true
 	}
@@ -215,6 +226,11 @@ func runC10(R *vlib.Out) {
 			}
 		}
 		gen("")
+		for _, p := range append([]string{}, pats...) {
+			if len(p) < maxN {
+				pats = append(pats, "g"+p)
+			}
+		}
 		for _, p := range pats {
 			n := len(p) + 1
 			for b := 0; b <= n+2; b++ {
